@@ -44,12 +44,14 @@ Clauses(c, e) ==
          << <<"start.no_exception", e.exc = "">> >> \o AllMsgClauses(c, e.msgs, "start") \o
          << <<"start.no_duplicate_port", Cardinality(Ports(e.msgs)) = Len(e.msgs)>> >>
     [] e.ev = "dgram" ->
-         << <<"dgram.alive", e.alive>>,
+         \* (a disabled responder may read datagrams as long as it never answers a non-request)
+         << <<"dgram.alive", c.enabled => e.alive>>,
             <<"dgram.answered_iff_discover",
-              e.cls \notin Loose => (e.msgs # <<>> <=> (e.cls = "discover" /\ c.nports > 0))>> >> \o
+              e.cls \notin Loose => IF c.enabled THEN e.msgs # <<>> <=> (e.cls = "discover" /\ c.nports > 0)
+                                                ELSE e.msgs # <<>> => e.cls = "discover">> >> \o
          AllMsgClauses(c, e.msgs, "dgram") \o
          << <<"dgram.one_answer_per_port",
-              e.msgs # <<>> => (Len(e.msgs) = c.nports /\ Ports(e.msgs) = 1 .. c.nports)>>,
+              (c.enabled /\ e.msgs # <<>>) => (Len(e.msgs) = c.nports /\ Ports(e.msgs) = 1 .. c.nports)>>,
             <<"dgram.to_sender", \A i \in 1 .. Len(e.msgs) : e.msgs[i].dest = "sender">> >>
     [] e.ev = "end" ->
          << <<"end.script_consumed", c.enabled => (e.reason = "script_end" /\ e.left = 0)>> >>
@@ -71,12 +73,13 @@ TStart == /\ Ev.ev = "start" /\ Start
 TDgram == /\ Ev.ev = "dgram" /\ Recv(Ev.cls)
           /\ alive' = Ev.alive
           /\ last'.answers = Ports(Ev.msgs)
+TOff == Ev.ev = "dgram" /\ phase = "off" /\ UNCHANGED vars      \* judged by the clauses alone
 TEnd == Ev.ev = "end" /\ UNCHANGED vars
 
 TStep == /\ l <= Len(Traces[t])
          /\ l' = l + 1 /\ t' = t
          /\ FirstFalse(Clauses(Traces[t][1], Ev)) = ""
-         /\ (TBuild \/ TStart \/ TDgram \/ TEnd)
+         /\ (TBuild \/ TStart \/ TDgram \/ TOff \/ TEnd)
 TSpec == TInit /\ [][TStep]_<<vars, t, l>>
 
 Track == TLCSet(t, IF l > TLCGet(t) THEN l ELSE TLCGet(t))
